@@ -258,7 +258,7 @@ def check_text(text, filename, rng, stats, max_reads=40, ops=('names_at', 'evalu
                 op = opmode if not opmode.startswith('mixed') else ops[(k + j) % len(ops)]
                 got = a.query(op, i, shared)
                 hist.append((op, i))
-                if got != fresh[(op, i)]:
+                if got != fresh[(op, i)] and not _resource(got, fresh[(op, i)]):
                     node = a.reads[i]
                     vios.append({'sig': 'C04/query-order/%s' % op,
                                  'detail': 'read %r at %r: asked after %r it answers %r, asked first it answers %r' % (
@@ -356,7 +356,7 @@ def check_project(case, stats):
                 got = ask(p, root, reqs[j])
                 hist.append(j)
                 stats['evals'] += 1
-                if got != fresh[j]:
+                if got != fresh[j] and not _resource(got, fresh[j]):
                     vios.append({'sig': 'C04/request-order/%s' % reqs[j]['kind'],
                                  'detail': 'request %d (%s %r at %r) after requests %r answers %r; on a fresh project %r' % (
                                      j, reqs[j]['kind'], reqs[j]['source'], reqs[j]['position'], hist[:-1], _b(got), _b(fresh[j])),
@@ -370,6 +370,12 @@ def check_project(case, stats):
         idhash.uninstall()
         shutil.rmtree(root, ignore_errors=True)
     return vios
+
+
+def _resource(a, b):
+    """An answer that is the interpreter's recursion limit is a resource effect (a warm memo makes the same evaluation
+    shallower), not a statement about the position: such pairs are not compared."""
+    return any(isinstance(x, (tuple, list)) and len(x) >= 2 and x[0] == 'exc' and x[1] == 'RecursionError' for x in (a, b))
 
 
 def _b(x):
